@@ -3174,8 +3174,10 @@ class SEVM:
                     profiler.increment(opcode, extra)
 
                 if max_depth and step_id > max_depth:
+                    # duplicates are filtered by message text, so the message must identify the test:
+                    # the same signature (e.g. setUp()) exists in many contracts
                     warn(
-                        f"{self.fun_info.sig}: incomplete execution due to the specified limit: --depth {max_depth}",
+                        f"{self.fun_info.contract_name}.{self.fun_info.sig}: incomplete execution due to the specified limit: --depth {max_depth}",
                         allow_duplicate=False,
                     )
                     continue
